@@ -284,6 +284,26 @@ pub fn archives(seed: u64, thorough: bool) -> Vec<Arch> {
             }
         }
     }
+    // everything else the crate's writer emits without encryption: extra data (shared, local/central split, with
+    // large_file), aligned entries (with and without large_file), raw copies - singly and in ordered pairs
+    {
+        let comps: Vec<(&'static str, Vec<Call>)> = crate::props::c02::composites(seed).into_iter().filter(|c| !c.0.starts_with("zipcrypto")).collect();
+        let src = crate::props::c02::sources(seed);
+        let nc = comps.len();
+        for j in 0..nc + nc * nc {
+            let picks: Vec<usize> = if j < nc { vec![j] } else { vec![(j - nc) / nc, (j - nc) % nc] };
+            let mut calls = vec![];
+            for &k in &picks {
+                calls.extend(comps[k].1.iter().cloned());
+            }
+            calls.push(Call::Finish);
+            let (res, bytes) = exec(&calls, &src);
+            if res.iter().all(|r| r.is_ok()) {
+                let label = picks.iter().map(|k| comps[*k].0).collect::<Vec<_>>().join("+");
+                add(format!("writer-composite:{label}"), bytes, None, json!({"calls": calls_json(&calls)}), None);
+            }
+        }
+    }
     // builder: streamable layouts
     let content = b"streamable builder entry, streamable builder entry".to_vec();
     for (k, (m, le, ce, cm)) in [(0u16, false, false, false), (8, true, false, true), (12, false, true, false), (93, true, true, true)].iter().enumerate() {
